@@ -8,7 +8,7 @@ ids = [json.loads(l)["id"] for l in open(os.path.join(V, "properties.jsonl"))]
 hooks = subprocess.run(["git", "-C", "/repo", "log", "--format=%H %s"], stdout=subprocess.PIPE, text=True).stdout.splitlines()
 hook_commits = [l.split()[0] for l in hooks if " verif hook:" in l]
 m = {"version": 1,
-     "setup_cmd": "make -C /verif/sim -j16",
+     "setup_cmd": "make -C /verif/sim -j16 && make -C /verif/sim KEY=default-vg SAN= 'OPT=-O1 -gdwarf-4 -DCOSIM_VALGRIND' -j16",
      "hooks": {"guard": "CO_VERIF_SIM", "enable": "checks compile /repo/src with -DCO_VERIF_SIM (see sim/Makefile); the define only enables CO_VERIF_YIELD() call sites in src/core/co_tmr.c",
                "baseline_off_cmd": "/verif/baseline.sh", "source_commits": hook_commits, "add_only": True},
      "engines": [{"name": "cosim", "path": "/verif/sim", "serves_properties": sorted(PROPS),
